@@ -3,6 +3,7 @@ import Hm.ReqSys
 import Hm.C02
 import Hm.Coding
 import Hm.Inflate
+import Hm.Rhymuri
 
 def hexDigit (n : Nat) : Char := if n < 10 then Char.ofNat (48 + n) else Char.ofNat (87 + n)
 def hex (bs : Bytes) : String := String.ofList (bs.flatMap fun b => [hexDigit (b.toNat / 16), hexDigit (b.toNat % 16)])
@@ -168,6 +169,19 @@ def step (line : String) : String :=
       | some out => s!"OK {hex out} | h={showHeaders r.1}"
       | none => s!"ERR | h={showHeaders r.1}"
     | _, _, _ => "bad-op"
+  | ["URI", b] =>
+    match unhex b with
+    | none => "bad-op"
+    | some bs =>
+      if !validUtf8 bs then "bad-op" else
+      match Rhymuri.parse bs with
+      | none => "ERR"
+      | some u =>
+        let o (x : Option Bytes) : String := match x with | some v => hex v | none => "-"
+        let a : String := match u.authority with
+          | some a => s!"{o a.userinfo},{hex a.host},{match a.port with | some p => toString p | none => "-"}"
+          | none => "-"
+        s!"OK s={o u.scheme} a={a} p={"/".intercalate (u.path.map hex)}|{u.path.length} q={o u.query} f={o u.fragment} d={hex (Rhymuri.display u)}"
   | ["GZ", b] => match unhex b with | some bs => (match gunzip bs with | some o => "OK " ++ hex o | none => "ERR") | none => "bad-op"
   | ["FL", b] => match unhex b with | some bs => (match inflateRaw bs with | some o => "OK " ++ hex o | none => "ERR") | none => "bad-op"
   | ["ZL", b] => match unhex b with | some bs => (match zlibDecode bs with | some o => "OK " ++ hex o | none => "ERR") | none => "bad-op"
